@@ -505,6 +505,10 @@ func (parser *routeParser) getMatch(detectionPath, path string, params *[maxPara
 			if !segment.IsOptional && i == 0 {
 				return false
 			}
+			// only greedy parameters may span a slash
+			if !segment.IsGreedy && strings.IndexByte(detectionPath[:i], slashDelimiter) != -1 {
+				return false
+			}
 			// take over the params positions
 			params[paramsIterator] = path[:i]
 
